@@ -78,6 +78,52 @@ def oracle(c: SC.SigCase) -> Optional[dict]:
     return None
 
 
+def redecoration() -> Optional[dict]:
+    """A decorated function is a function: decorating it again, with stricter options, checks the arguments and the
+    return value under the new options too (the body runs iff every layer accepts)."""
+    from koda_validate import IntValidator, Min, StringValidator
+    from koda_validate.signature import RETURN_OVERRIDE_KEY, InvalidArgsError, InvalidReturnError, validate_signature
+    from ..corr import drive
+    for is_async in (False, True):
+        ran: list = []
+        if is_async:
+            async def f(a: int, *rest: int, **kw: int) -> int:
+                ran.append(a)
+                return a
+        else:
+            def f(a: int, *rest: int, **kw: int) -> int:  # type: ignore[misc]
+                ran.append(a)
+                return a
+        f.__annotations__ = {"a": int, "rest": int, "kw": int, "return": int}   # real types (this module defers annotations)
+        w1 = validate_signature(f)
+        plans = [("a stricter override for a parameter", {"overrides": {"a": IntValidator(Min(10))}}, (5,), {}, InvalidArgsError),
+                 ("an override for **kwargs entries", {"overrides": {"kw": IntValidator(Min(10))}}, (50,), {"z": 1}, InvalidArgsError),
+                 ("an override for *args items", {"overrides": {"rest": IntValidator(Min(10))}}, (50, 1), {}, InvalidArgsError),
+                 ("a stricter override for the return value", {"overrides": {RETURN_OVERRIDE_KEY: IntValidator(Min(100))}}, (50,), {}, InvalidReturnError),
+                 ("an override of another type", {"overrides": {"a": StringValidator()}}, (5,), {}, InvalidArgsError),
+                 ("no new option", {}, ("x",), {}, InvalidArgsError),
+                 ("a stricter override, satisfied", {"overrides": {"a": IntValidator(Min(10))}}, (50,), {}, None)]
+        for label, opts, args, kwargs, want in plans:
+            w2 = validate_signature(w1, **opts)
+            del ran[:]
+            try:
+                res = w2(*args, **kwargs)
+                if is_async:
+                    res = drive(res)
+                exc = None
+            except BaseException as e:  # noqa
+                res, exc = None, e
+            kind = "async" if is_async else "sync"
+            if want is None:
+                if exc is not None or res != args[0] or ran != [args[0]]:
+                    return {"signature": "C08:redecoration", "what": f"{kind} function decorated twice ({label}): a call both layers accept ended with {exc!r} / returned {res!r}; body runs: {ran!r}"}
+            elif type(exc) is not want or (want is InvalidArgsError and ran):
+                return {"signature": "C08:redecoration",
+                        "what": f"{kind} function decorated twice, the second time with {label}: f{args!r}{kwargs!r} must end with {want.__name__}"
+                                f"{' before the body runs' if want is InvalidArgsError else ''}; it ended with {exc!r}, returned {res!r}, body runs: {ran!r}"}
+    return None
+
+
 def run(tier: str, rng: random.Random, proof_ok: bool, oracle_fn=oracle, name="C08") -> dict:
     t0 = time.time()
     n = 2500 if tier == "quick" else 40000
@@ -116,6 +162,10 @@ def run(tier: str, rng: random.Random, proof_ok: bool, oracle_fn=oracle, name="C
                                    "observed": coq(c.obs)[:600]})
     if oerr:
         violations.append({"kind": "correspondence", "signature": None, "what": f"the oracle itself failed on {len(oerr)} cases", "log": oerr[0]})
+    if name == "C08":
+        rd = redecoration()
+        if rd:
+            violations.append({"kind": "oracle", **rd, "replay_case": {"redecoration": True}})
     # overlapping calls of one decorated coroutine function
     npairs = 150 if tier == "quick" else 3000
     pairs_run = 0
@@ -201,6 +251,10 @@ def replay(path: str, oracle_fn=oracle) -> int:
     if not cj:
         print("replay file names a broken obligation, no input:", j.get("what"))
         return 1
+    if cj.get("redecoration"):
+        r = redecoration()
+        print("property violated: " + r["what"] if r else "decorating a decorated function checks under both sets of options")
+        return 1 if r else 0
     if "pair" in cj:
         r = SC.concurrent_pair(SC.sigcase_from_json(cj["pair"][0]), SC.sigcase_from_json(cj["pair"][1]))
         print("property violated on this pair of overlapping calls: " + r["what"] if r else "property holds on this pair")
